@@ -35,7 +35,7 @@ LEVEL_TEXT = ('Every history A->B and A->B->A (thorough: also A->Bi->BiBj pairs)
               'files must be byte-identical to an uncached compilation of the same vector.  Same for cython.inline over '
               'code / argument type / language_level / directives, through the in-process and the '
               'on-disk cache, comparing returned values with an uncached build.')
-LEVEL_NOTE = ('Histories have <= 2 changes (3 compilations); one probe module pair (a.pyx gzip path, p.pyx public/api zip path). '
+LEVEL_NOTE = ('Histories have <= 2 changes (3 compilations); probe modules a.pyx (gzip path), p.pyx (public/api: zip path), i.pyx (include). '
               'Options without an alternative in OPTION_ALTS are reported as uncovered, options that make caching raise '
               'NotImplementedError by design (capi_reexport_cincludes, common_utility_include_dir) and annotate (disables '
               'the cache) are excluded.  Directives whose alternative value is rejected at module scope are skipped and '
@@ -48,7 +48,6 @@ LEVEL_NOTE = ('Histories have <= 2 changes (3 compilations); one probe module pa
 A_PYX = '''\
 cimport cython
 from b cimport K, bt
-include "d.pxi"
 cdef extern from "h.h":
     int HV
 
@@ -79,7 +78,7 @@ def div(int a, int b):
     >>> div(1, 1)
     1
     """
-    return cf(a, b) + K + DV
+    return cf(a, b) + K
 
 def mul(long a, long b):
     return a * b
@@ -152,7 +151,10 @@ cdef api int af(int x):
 BASE_FILES = {
     'a.pyx': A_PYX,
     'b.pxd': 'cdef enum:\n    K = 1\nctypedef int bt\n',
+    # the include lives in its own module i.pyx: equal (line, column) positions of two files in one scope make the tracing
+    # offsets (profile/linetrace) depend on set iteration order - reported under C42, not the cache's fault
     'd.pxi': 'DV = 3\n',
+    'i.pyx': 'include "d.pxi"\ndef iv():\n    return DV\n',
     'h.h': '#define HV 1\n',
     'p.pyx': P_PYX,
 }
@@ -245,7 +247,7 @@ def components(tier):
             comps.append(('directive', name, repr(val), m))
     for key, val in (('language', 'c++'), ('py_limited_api', True), ('libraries', ['m'])):
         def m(v, key=key, val=val):
-            for mod in ('a.pyx', 'p.pyx'):
+            for mod in ('a.pyx', 'p.pyx', 'i.pyx'):
                 v['ext'].setdefault(mod, {})[key] = val
         comps.append(('ext', key, repr(val), m))
     return comps
@@ -394,6 +396,12 @@ def run_history(arg):
                     fn2, diff2 = _first_diff(got_files, ref2)
                     dir_dependent = fn2 is None or ref2 != ref
                     ref, fn, diff = ref2, fn2, diff2
+                    if fn is not None and not hits:
+                        # no cache hit and still different: is the uncached compiler deterministic on this vector at all?
+                        ref3, info3 = _build(tree, vec, modules, None)
+                        if ref3 and ref3 != ref2:
+                            fn, diff = None, None
+                            dir_dependent = 'nondeterministic'
             st = {'status': 'ok' if fn is None else 'mismatch', 'hits': hits, 'digest': _digest(ref), 'file': fn, 'diff': diff,
                   'dir_dependent': dir_dependent}
             if fn is not None:
@@ -526,6 +534,8 @@ def _histories(tier):
             mods = ['a.pyx', 'p.pyx']
         if c[0] == 'file' and c[1] == 'p.pyx':
             mods = ['p.pyx']
+        if c[0] == 'file' and c[1] == 'd.pxi':
+            mods = ['i.pyx']
         hists.append({'shape': 'ABA', 'comps': [c[:3]], 'vectors': [base, b, base], 'modules': mods})
     if tier == 'thorough':
         structural = [c for c in comps if c[0] != 'directive']
@@ -542,7 +552,8 @@ def _histories(tier):
             b2 = apply_comp(base, c2)
             # A -> B1 -> B1B2 -> B2 (drop the first change again): every step changes one component
             hists.append({'shape': 'A/B1/B1B2/B2', 'comps': [c1[:3], c2[:3]], 'vectors': [base, b1, b12, b2],
-                          'modules': ['a.pyx', 'p.pyx'] if 'ext' in (c1[0], c2[0]) or 'p.pyx' in (c1[1], c2[1]) else ['a.pyx']})
+                          'modules': (['a.pyx', 'p.pyx'] if 'ext' in (c1[0], c2[0]) or 'p.pyx' in (c1[1], c2[1]) else ['a.pyx'])
+                          + (['i.pyx'] if 'd.pxi' in (c1[1], c2[1]) and not {'profile', 'linetrace'} & {c1[1], c2[1]} else [])})
     return hists
 
 
@@ -621,6 +632,7 @@ def run(ctx):
     effective = []
     hits_total = 0
     dir_dependent = []
+    nondeterministic = []
     outcome_kinds = set()
     for i, r in zip(order, res):
         h = hists[i]
@@ -636,7 +648,9 @@ def run(ctx):
                 rejected.append(label)
                 break
             hits_total += len(st.get('hits') or ())
-            if st.get('dir_dependent'):
+            if st.get('dir_dependent') == 'nondeterministic':
+                nondeterministic.append(label)
+            elif st.get('dir_dependent'):
                 dir_dependent.append(label)
             if st['status'] != 'ok':
                 c = ('base', '', '') if not si else h['comps'][0] if si in (1, 3) or len(h['comps']) == 1 else h['comps'][1]
@@ -701,6 +715,7 @@ def run(ctx):
         'components_changing_output': len(set(effective)), 'components_without_effect_on_probe': sorted(set(no_effect)),
         'components_rejected_by_compiler': sorted(set(rejected)),
         'uncached_output_depends_on_directory': sorted(set(dir_dependent)),
+        'uncached_output_nondeterministic': sorted(set(nondeterministic)),
         'uncovered_options': uncovered, 'skipped_options': OPTION_SKIP,
         'distinct_outcomes': sorted('%s/hit=%s' % o for o in outcome_kinds),
         'inline': istats, 'samples': samples, 'exhaustive': not only,
